@@ -56,6 +56,7 @@ theorem compare_object_step (g f lh rh : Nat) (left right : Bytes) (kl kr : Nat)
   rw [Tr.compare_object]
   rw [Fn.cmpObject] at hne ⊢
   simp only [hdrLen_cast, ← h8, Rs.mul_usize_nat 8 (hdrLen lh) (by omega), Rs.mul_usize_nat 8 (hdrLen rh) (by omega),
+    Rs.mul_usize_nat (hdrLen lh) 8 (by omega), Rs.mul_usize_nat (hdrLen rh) 8 (by omega), Nat.mul_comm (hdrLen lh) 8, Nat.mul_comm (hdrLen rh) 8,
     vecWithCapacity_ok Tr.JEntry 8 (hdrLen lh) (by omega), vecWithCapacity_ok Tr.JEntry 8 (hdrLen rh) (by omega),
     Ctl.ofRes_ok', Ctl.val_bind', min_cast, Rs.forRange_zero, compare_natCast]
   rw [← h0]
